@@ -186,6 +186,24 @@ Proof.
   split; [now rewrite firstn_skipn|rewrite skipn_length; lia].
 Qed.
 
+(* the same boundaries for objects and strings *)
+Lemma take_boundaries_obj_str m s n : (length m <= N.to_nat n)%nat -> (length s <= N.to_nat n)%nat ->
+  pure_sem F_take [Some (JObj m); Some (JNum (NPos 0))] = Some (Some (JObj []))
+  /\ pure_sem F_take [Some (JStr s); Some (JNum (NPos 0))] = Some (Some (JStr []))
+  /\ pure_sem F_take [Some (JObj m); Some (JNum (NPos n))] = Some (Some (JObj m))
+  /\ pure_sem F_take [Some (JStr s); Some (JNum (NPos n))] = Some (Some (JStr s))
+  /\ pure_sem F_take_last [Some (JObj m); Some (JNum (NPos 0))] = Some (Some (JObj []))
+  /\ pure_sem F_take_last [Some (JStr s); Some (JNum (NPos 0))] = Some (Some (JStr []))
+  /\ pure_sem F_take_last [Some (JObj m); Some (JNum (NPos n))] = Some (Some (JObj m))
+  /\ pure_sem F_take_last [Some (JStr s); Some (JNum (NPos n))] = Some (Some (JStr s)).
+Proof.
+  intros Hm Hs. rewrite !take_obj, !take_str, !take_last_obj, !take_last_str.
+  change (N.to_nat 0) with O. rewrite !Nat.sub_0_r, !skipn_all.
+  rewrite (firstn_all2 m Hm), (firstn_all2 s Hs).
+  replace (length m - N.to_nat n)%nat with O by lia. replace (length s - N.to_nat n)%nat with O by lia.
+  repeat split; reflexivity.
+Qed.
+
 (* take and take_last split the collection: (take l n) ++ (take_last l (size - n)) = l *)
 Lemma take_take_last_partition (l : list json) (n : nat) : (n <= length l)%nat ->
   firstn n l ++ skipn (length l - (length l - n)) l = l.
@@ -460,18 +478,19 @@ Proof. psem. now rewrite join_go_strings. Qed.
 
 Lemma join_nonstring_item l sepv : (exists v, In v l /\ forall s, v <> JStr s) ->
   pure_sem F_join [Some (JArr l); sepv] = Some None.
-Proof. intros H. psem. now rewrite join_go_nonstring. Qed.
+Proof. intros H. psem. destruct sepv as [[| | | | |]|]; try reflexivity. now rewrite join_go_nonstring. Qed.
 
-(* NOT "nothing": a separator of the wrong type behaves like an omitted separator (the code uses
-   `.and_then(|f| TryInto::<String>::try_into(f).ok()).unwrap_or(", ")`) *)
-Lemma join_bad_sep_is_default a sepv : not_str sepv ->
-  pure_sem F_join [a; sepv] = pure_sem F_join [a].
+(* a separator of the wrong type (or one that evaluates to nothing) gives nothing; the default ", " is used
+   only when the argument is omitted *)
+Lemma join_bad_sep_nothing a sepv : not_str sepv ->
+  pure_sem F_join [a; sepv] = Some None.
 Proof. intros H. psem. destruct sepv as [[| | | | |]|]; try reflexivity; destruct H. Qed.
 
 Lemma join_wrong_type vals : not_arr (arg vals 0%nat) -> pure_sem F_join vals = Some None.
 Proof.
   intros H. cbv [pure_sem core_fn sem_coll join_sem].
-  destruct (arg vals 0%nat) as [[| | | | |]|]; try reflexivity; destruct H.
+  destruct (arg vals 0%nat) as [[| | | | |]|]; try (destruct H; fail);
+    match goal with |- context [match ?o with Some _ => _ | None => _ end] => destruct o end; reflexivity.
 Qed.
 
 (* sum: "Sum all the items in the list. If list have non numeric items, it will return nuthing." *)
@@ -2206,3 +2225,354 @@ Proof.
 Qed.
 
 End ObjectBinders.
+
+(* ---- map_values: "Map an object values." — keys and member order are kept ---- *)
+Section MapValues.
+Variable opaque : fn -> list (option json) -> option json.
+Notation ev := (eval opaque).
+
+Lemma eval_map_values mf a b c :
+  ev mf (ECall F_map_values [a; b]) c
+  = match ev mf a c with
+    | Val (Some (JObj m)) =>
+        match all_vals (map (fun kv => ev mf b (with_input c (snd kv))) m) with
+        | None => OutOfFuel
+        | Some rs =>
+            Val (Some (JObj (fold_left (fun acc p => match snd p with
+                                                     | Some v => obj_insert (fst (fst p)) v acc
+                                                     | None => acc
+                                                     end) (combine m rs) [])))
+        end
+    | OutOfFuel => OutOfFuel
+    | _ => Val None
+    end.
+Proof. destruct mf; reflexivity. Qed.
+
+Lemma obj_has_map_values (g : json -> json) k m :
+  obj_has k (map (fun kv => (fst kv, g (snd kv))) m) = obj_has k m.
+Proof.
+  unfold obj_has. induction m as [|[k' v'] t IH]; [reflexivity|]. cbn [map obj_get fst snd].
+  destruct (str_eqb k k'); [reflexivity|exact IH].
+Qed.
+Lemma obj_has_false_iff k (m : list (str * json)) : obj_has k m = false <-> ~ In k (map fst m).
+Proof.
+  unfold obj_has. induction m as [|[k' v'] t IH]; cbn [obj_get map fst In]; [tauto|].
+  destruct (str_eqb k k') eqn:E.
+  - apply str_eqb_eq in E. subst k'. split; [discriminate|]. intros H. exfalso. apply H. now left.
+  - rewrite IH. split; [|tauto]. intros H [Hk|Hk]; [|contradiction].
+    subst k'. now rewrite str_eqb_refl in E.
+Qed.
+
+Lemma map_values_fold (g : json -> json) m : NoDup (map fst m) ->
+  fold_left (fun acc p => match snd p with
+                          | Some v => obj_insert (fst (fst p)) v acc
+                          | None => acc
+                          end) (map (fun kv => (kv, Some (g (snd kv)))) m) []
+  = map (fun kv => (fst kv, g (snd kv))) m.
+Proof.
+  induction m as [|[k v] t IH] using rev_ind; intros Hnd; [reflexivity|].
+  rewrite !map_app, fold_left_app. cbn [map fold_left fst snd].
+  rewrite map_app in Hnd. cbn [map fst] in Hnd.
+  assert (Hnd' : NoDup (k :: map fst t)).
+  { eapply Permutation_NoDup; [apply Permutation_sym, Permutation_cons_append|exact Hnd]. }
+  inversion Hnd' as [|? ? Hnotin Hndt]; subst.
+  rewrite IH by exact Hndt. apply obj_insert_absent.
+  rewrite obj_has_map_values. now apply obj_has_false_iff.
+Qed.
+
+Theorem map_values_spec mf a b c m (g : json -> json) :
+  ev mf a c = Val (Some (JObj m)) -> NoDup (map fst m) ->
+  (forall kv, In kv m -> ev mf b (with_input c (snd kv)) = Val (Some (g (snd kv)))) ->
+  ev mf (ECall F_map_values [a; b]) c
+  = Val (Some (JObj (map (fun kv => (fst kv, g (snd kv))) m))).
+Proof.
+  intros Ha Hnd Hb. rewrite eval_map_values, Ha.
+  rewrite (map_ext_in _ (fun kv => Val (Some (g (snd kv)))) m Hb), all_vals_Val.
+  rewrite combine_map_self. now rewrite (map_values_fold g m Hnd).
+Qed.
+
+End MapValues.
+
+(* ====================================================================================== *)
+(* 10. Non-vacuity: the documentation examples, by computation                             *)
+(* ====================================================================================== *)
+Section Examples.
+Definition jn (n : N) : json := JNum (NPos n).
+Definition jz (z : Z) : json := JNum (NNeg z).
+Definition on (n : N) : option json := Some (jn n).
+(* the number written as the decimal text `txt` *)
+Definition jdec (txt : list N) : json :=
+  JNum (match dec2flt txt with Some b => num_of_f b | None => NPos 0 end).
+Definition s_one : str := [111; 110; 101].
+Definition s_two : str := [116; 119; 111].
+Definition s_three : str := [116; 104; 114; 101; 101].
+Definition s_k1 : str := [107; 45; 49].         (* k-1 *)
+Definition s_k2 : str := [107; 45; 50].
+Definition s_k3 : str := [107; 45; 51].
+Definition s_123456 : str := [49; 50; 51; 52; 53; 54].
+Definition l1234 : json := JArr [jn 1; jn 2; jn 3; jn 4].
+Definition o123 : json := JObj [(s_k1, jn 1); (s_k2, jn 2); (s_k3, jn 3)].
+
+(* take / take_last / sub, N = 0, N = size, N > size, on lists, objects and strings *)
+Example ex_take :
+  pure_sem F_take [Some l1234; on 2] = Some (Some (JArr [jn 1; jn 2]))
+  /\ pure_sem F_take [Some l1234; on 0] = Some (Some (JArr []))
+  /\ pure_sem F_take [Some l1234; on 4] = Some (Some l1234)
+  /\ pure_sem F_take [Some l1234; on 6] = Some (Some l1234)
+  /\ pure_sem F_take [Some o123; on 1] = Some (Some (JObj [(s_k1, jn 1)]))
+  /\ pure_sem F_take [Some (JStr s_123456); on 2] = Some (Some (JStr [49; 50]))
+  /\ pure_sem F_take [on 50; on 10] = Some None
+  /\ pure_sem F_take [Some (JStr s_123456); Some (JBool false)] = Some None
+  /\ pure_sem F_take [Some l1234; Some (jz (-1))] = Some None
+  /\ pure_sem F_take [Some l1234] = Some None.
+Proof. vm_compute. repeat split; reflexivity. Qed.
+
+Example ex_take_last :
+  pure_sem F_take_last [Some l1234; on 2] = Some (Some (JArr [jn 3; jn 4]))
+  /\ pure_sem F_take_last [Some l1234; on 0] = Some (Some (JArr []))
+  /\ pure_sem F_take_last [Some l1234; on 6] = Some (Some l1234)
+  /\ pure_sem F_take_last [Some o123; on 1] = Some (Some (JObj [(s_k3, jn 3)]))
+  /\ pure_sem F_take_last [Some (JStr s_123456); on 2] = Some (Some (JStr [53; 54]))
+  /\ pure_sem F_take_last [Some (JStr s_123456); on 18446744073709551615] = Some (Some (JStr s_123456)).
+Proof. vm_compute. repeat split; reflexivity. Qed.
+
+Example ex_sub :
+  pure_sem F_sub [Some (JArr [jn 1; jn 2; jn 3; jn 4; jn 5; jn 6]); on 2; on 3] = Some (Some (JArr [jn 3; jn 4; jn 5]))
+  /\ pure_sem F_sub [Some l1234; on 6; on 10] = Some (Some (JArr []))
+  /\ pure_sem F_sub [Some l1234; on 1; on 10] = Some (Some (JArr [jn 2; jn 3; jn 4]))
+  /\ pure_sem F_sub [Some o123; on 1; on 1] = Some (Some (JObj [(s_k2, jn 2)]))
+  /\ pure_sem F_sub [Some (JStr s_123456); on 1; on 3] = Some (Some (JStr [50; 51; 52]))
+  /\ pure_sem F_sub [Some (JStr s_123456); on 2; on 0] = Some (Some (JStr []))
+  /\ pure_sem F_sub [on 50; on 0; on 10] = Some None
+  /\ pure_sem F_sub [Some (JStr s_123456); on 10; Some (JObj [])] = Some None.
+Proof. vm_compute. repeat split; reflexivity. Qed.
+
+Example ex_size_get :
+  pure_sem F_size [Some l1234] = Some (Some (jn 4))
+  /\ pure_sem F_size [Some o123] = Some (Some (jn 3))
+  /\ pure_sem F_size [on 50] = Some None
+  /\ pure_sem F_get [Some l1234; on 1] = Some (Some (jn 2))
+  /\ pure_sem F_get [Some l1234; on 100] = Some None
+  /\ pure_sem F_get [Some o123; Some (JStr s_k2)] = Some (Some (jn 2))
+  /\ pure_sem F_get [Some o123; on 1] = Some None.
+Proof. vm_compute. repeat split; reflexivity. Qed.
+
+Example ex_folding :
+  pure_sem F_first [Some l1234] = Some (Some (jn 1))
+  /\ pure_sem F_last [Some l1234] = Some (Some (jn 4))
+  /\ pure_sem F_first [Some (JArr [])] = Some None
+  /\ pure_sem F_all [Some (JArr [JBool true; JBool true; jn 1; JBool true])] = Some (Some (JBool false))
+  /\ pure_sem F_all [Some (JArr [JBool true; JBool true])] = Some (Some (JBool true))
+  /\ pure_sem F_all [Some (JArr [])] = Some (Some (JBool false))
+  /\ pure_sem F_any [Some (JArr [jn 1; jn 2; JBool true; JBool false])] = Some (Some (JBool true))
+  /\ pure_sem F_any [Some (JArr [])] = Some (Some (JBool false))
+  /\ pure_sem F_join [Some (JArr [JStr s_one; JStr s_two; JStr s_three])]
+     = Some (Some (JStr (s_one ++ [44; 32] ++ s_two ++ [44; 32] ++ s_three)))
+  /\ pure_sem F_join [Some (JArr [JStr s_one; JStr s_two]); Some (JStr [59])]
+     = Some (Some (JStr (s_one ++ [59] ++ s_two)))
+  /\ pure_sem F_join [Some (JArr [JStr s_one; JStr s_two; jn 3])] = Some None
+  /\ pure_sem F_join [Some (JArr [JStr s_one; JStr s_two]); on 5] = Some None
+  /\ pure_sem F_sum [Some (JArr [jn 1; jn 5; jz (-7)])] = Some (Some (jz (-1)))
+  /\ pure_sem F_sum [Some (JArr [jn 1; JStr s_one])] = Some None.
+Proof. vm_compute. repeat split; reflexivity. Qed.
+
+Example ex_manipulations :
+  pure_sem F_pop [Some l1234] = Some (Some (JArr [jn 1; jn 2; jn 3]))
+  /\ pure_sem F_pop_first [Some l1234] = Some (Some (JArr [jn 2; jn 3; jn 4]))
+  /\ pure_sem F_pop [Some (JArr [])] = Some (Some (JArr []))
+  /\ pure_sem F_push [Some (JArr []); on 1; on 2; None; on 3] = Some (Some (JArr [jn 1; jn 2; jn 3]))
+  /\ pure_sem F_push_front [Some (JArr []); on 1; on 2; on 3; on 4] = Some (Some (JArr [jn 4; jn 3; jn 2; jn 1]))
+  /\ pure_sem F_reverese [Some l1234] = Some (Some (JArr [jn 4; jn 3; jn 2; jn 1]))
+  /\ pure_sem F_indexed [Some (JArr [JBool false; JNull])]
+     = Some (Some (JArr [JObj [(k_value, JBool false); (k_index, jn 0)]; JObj [(k_value, JNull); (k_index, jn 1)]]))
+  /\ pure_sem F_push [on 4; on 4] = Some None.
+Proof. vm_compute. repeat split; reflexivity. Qed.
+
+Example ex_sort :
+  pure_sem F_sort [Some (JArr [JNull; JBool true; JBool false; JObj []; l1234; JStr s_two; JStr s_one; jn 7; jz (-2); o123])]
+  = Some (Some (JArr [JNull; JBool false; JBool true; JStr s_one; JStr s_two; jz (-2); jn 7; JObj []; o123; l1234]))
+  /\ pure_sem F_sort_unique [Some (JArr [jn 1; jn 2; jn 3; jn 2; jn 3; jn 3])] = Some (Some (JArr [jn 1; jn 2; jn 3]))
+  /\ pure_sem F_sort [on 344] = Some None.
+Proof. vm_compute. repeat split; reflexivity. Qed.
+
+Example ex_producers :
+  pure_sem F_range [on 4] = Some (Some (JArr [jn 0; jn 1; jn 2; jn 3]))
+  /\ pure_sem F_range [Some (jz (-4))] = Some None
+  /\ pure_sem F_zip [Some (JArr [JStr s_one; JStr s_two]); Some (JArr [jn 1; jn 2]); Some (JArr [JBool false])]
+     = Some (Some (JArr [JObj [(dot_key 0, JStr s_one); (dot_key 1, jn 1); (dot_key 2, JBool false)];
+                         JObj [(dot_key 0, JStr s_two); (dot_key 1, jn 2)]]))
+  /\ pure_sem F_cross [Some (JArr [JStr s_one; JStr s_two]); Some (JArr [jn 1; jn 2])]
+     = Some (Some (JArr [JObj [(dot_key 0, JStr s_one); (dot_key 1, jn 1)]; JObj [(dot_key 0, JStr s_two); (dot_key 1, jn 1)];
+                         JObj [(dot_key 0, JStr s_one); (dot_key 1, jn 2)]; JObj [(dot_key 0, JStr s_two); (dot_key 1, jn 2)]]))
+  /\ pure_sem F_zip [Some l1234; on 6] = Some None
+  /\ dot_key 2 = [46; 50].
+Proof. vm_compute. repeat split; reflexivity. Qed.
+
+Example ex_objects :
+  pure_sem F_keys [Some o123] = Some (Some (JArr [JStr s_k1; JStr s_k2; JStr s_k3]))
+  /\ pure_sem F_values [Some o123] = Some (Some (JArr [jn 1; jn 2; jn 3]))
+  /\ pure_sem F_entries [Some (JObj [(s_k1, jn 1)])] = Some (Some (JArr [JObj [(k_value, jn 1); (k_key, JStr s_k1)]]))
+  /\ pure_sem F_put [Some o123; Some (JStr s_k1); Some (jz (-1))] = Some (Some (JObj [(s_k1, jz (-1)); (s_k2, jn 2); (s_k3, jn 3)]))
+  /\ pure_sem F_put [Some (JObj []); Some (JStr s_k1); on 1] = Some (Some (JObj [(s_k1, jn 1)]))
+  /\ pure_sem F_insert_if_absent [Some o123; Some (JStr s_k1); Some (jz (-1))] = Some (Some o123)
+  /\ pure_sem F_replace_if_exists [Some (JObj []); Some (JStr s_k1); on 1] = Some (Some (JObj []))
+  /\ pure_sem F_put [Some (JArr []); Some (JStr s_k1); on 1] = Some None
+  /\ pure_sem F_put [Some (JObj []); on 1; on 1] = Some None
+  /\ pure_sem F_put [Some (JObj []); Some (JStr s_k1); None] = Some None
+  /\ pure_sem F_sort_by_keys [Some (JObj [(s_k3, jn 1); (s_k1, jn 2); (s_k2, JNull)])]
+     = Some (Some (JObj [(s_k1, jn 2); (s_k2, JNull); (s_k3, jn 1)]))
+  /\ pure_sem F_sort_by_values [Some (JObj [(s_k3, jn 5); (s_k1, jn 2); (s_k2, JNull)])]
+     = Some (Some (JObj [(s_k2, JNull); (s_k1, jn 2); (s_k3, jn 5)])).
+Proof. vm_compute. repeat split; reflexivity. Qed.
+
+Example ex_strings :
+  pure_sem F_concat [Some (JStr s_one); Some (JStr [32]); Some (JStr s_two)] = Some (Some (JStr (s_one ++ [32] ++ s_two)))
+  /\ pure_sem F_concat [Some (JStr s_one); on 2] = Some None
+  /\ pure_sem F_head [Some (JStr s_123456); on 4] = Some (Some (JStr [49; 50; 51; 52]))
+  /\ pure_sem F_head [Some (JStr s_123456); on 20] = Some (Some (JStr s_123456))
+  /\ pure_sem F_tail [Some (JStr s_123456); on 20] = Some (Some (JStr s_123456))
+  /\ pure_sem F_head [on 20; on 20] = Some None
+  /\ pure_sem F_head [Some (JStr s_123456); Some (jz (-5))] = Some None
+  /\ pure_sem F_split [Some (JStr [97; 124; 98; 124; 99]); Some (JStr [124])] = Some (Some (JArr [JStr [97]; JStr [98]; JStr [99]]))
+  /\ pure_sem F_split [Some (JStr [97; 44; 32; 98]); Some (JStr [44; 32])] = Some (Some (JArr [JStr [97]; JStr [98]])).
+Proof. vm_compute. repeat split; reflexivity. Qed.
+
+(* tail skips N characters: (tail "123456" 1) = "23456", whereas (take_last "123456" 1) = "6";
+   the two agree on the documentation's own example because there N is half the length *)
+Example ex_tail_is_not_take_last :
+  pure_sem F_tail [Some (JStr s_123456); on 1] = Some (Some (JStr [50; 51; 52; 53; 54]))
+  /\ pure_sem F_take_last [Some (JStr s_123456); on 1] = Some (Some (JStr [54]))
+  /\ pure_sem F_tail [Some (JStr s_123456); on 3] = pure_sem F_take_last [Some (JStr s_123456); on 3].
+Proof. vm_compute. repeat split; reflexivity. Qed.
+
+Example ex_booleans :
+  pure_sem F_lt [on 1; on 3] = Some (Some (JBool true))
+  /\ pure_sem F_lt [on 31; on 1] = Some (Some (JBool false))
+  /\ pure_sem F_gte [on 1; on 1] = Some (Some (JBool true))
+  /\ pure_sem F_eq [Some (JStr [49]); on 1] = Some (Some (JBool false))
+  /\ pure_sem F_lt [Some (JStr [49]); on 1] = Some (Some (JBool true))
+  /\ pure_sem F_eq [on 1; None] = Some None
+  /\ pure_sem F_not [Some (JBool true)] = Some (Some (JBool false))
+  /\ pure_sem F_not [on 12] = Some None
+  /\ pure_sem F_xor [Some (JBool true); Some (JBool false)] = Some (Some (JBool true))
+  /\ pure_sem F_xor [Some JNull; Some (JBool false)] = Some None
+  /\ pure_sem F_and [jtrue; jtrue; on 12; jtrue] = Some None
+  /\ pure_sem F_or [jfalse; jfalse; jtrue; jfalse] = Some (Some (JBool true))
+  /\ pure_sem F_if [jtrue; on 12; on 22] = Some (on 12)
+  /\ pure_sem F_if [on 1; on 12; on 22] = Some None
+  /\ pure_sem F_default [None; None; on 22; on 1] = Some (on 22).
+Proof. vm_compute. repeat split; reflexivity. Qed.
+
+(* numbers: results with zero fractional part are integers (7/2 = 3.5 stays a float, 100/25 = 4,
+   floor 10.3 = 10, ceil -10.3 = -10, round -10.5 = -11, 10 % 7.5 = 2.5, 1 + 10 - 4.1 + 0.1 = 7) *)
+Example ex_numbers :
+  pure_sem F_div [on 100; on 25] = Some (Some (jn 4))
+  /\ pure_sem F_div [on 7; on 2] = Some (Some (jdec [51; 46; 53]))
+  /\ jdec [51; 46; 53] = JNum (NFlt 4615063718147915776)
+  /\ pure_sem F_div [on 7; on 0] = Some None
+  /\ pure_sem F_div [on 7; Some (JArr [])] = Some None
+  /\ pure_sem F_rem [on 5; on 3] = Some (Some (jn 2))
+  /\ pure_sem F_rem [on 10; Some (jdec [55; 46; 53])] = Some (Some (jdec [50; 46; 53]))
+  /\ pure_sem F_rem [Some (jz (-10)); on 7] = Some (Some (jz (-3)))
+  /\ pure_sem F_floor [Some (jdec [49; 48; 46; 51])] = Some (Some (jn 10))
+  /\ pure_sem F_floor [Some (jdec [45; 49; 48; 46; 51])] = Some (Some (jz (-11)))
+  /\ pure_sem F_ceil [Some (jdec [45; 49; 48; 46; 51])] = Some (Some (jz (-10)))
+  /\ pure_sem F_ceil [Some (jdec [49; 48; 46; 57; 57])] = Some (Some (jn 11))
+  /\ pure_sem F_round [Some (jdec [45; 49; 48; 46; 53])] = Some (Some (jz (-11)))
+  /\ pure_sem F_round [Some (jdec [49; 48; 46; 53])] = Some (Some (jn 11))
+  /\ pure_sem F_abs [Some (jz (-100))] = Some (Some (jn 100))
+  /\ pure_sem F_abs [Some (JArr [jn 0])] = Some None
+  /\ pure_sem F_add [on 1; on 10; Some (jdec [45; 52; 46; 49]); Some (jdec [48; 46; 49])] = Some (Some (jn 7))
+  /\ pure_sem F_add [on 1; on 3; Some (JBool false)] = Some None
+  /\ pure_sem F_mul [on 2; on 15; Some (jdec [48; 46; 49])] = Some (Some (jn 3))
+  /\ pure_sem F_sub_ [on 100; on 3] = Some (Some (jn 97))
+  /\ pure_sem F_sub_ [on 10] = Some (Some (jz (-10)))
+  /\ pure_sem F_sub_ [on 0] = Some (Some (jn 0))
+  /\ pure_sem F_sub_ [on 10; Some (JStr s_one)] = Some None
+  /\ pure_sem F_sum [Some (JArr [jn 1; jn 5; jdec [49; 46; 49]])] = Some (Some (jdec [55; 46; 49])).
+Proof. vm_compute. repeat split; reflexivity. Qed.
+
+(* the binders on real expressions: `.` is (EExtract 0 None), `.k` is (EExtract 0 (Some [SKey k])) *)
+Definition e_dot : expr := EExtract 0 None.
+Definition e_key (k : str) : expr := EExtract 0 (Some [SKey k]).
+Definition ctx0 : ctx := new_with_no_context JNull.
+
+(* (map [1, 2, 3, "4"] (times . 2)) = [2, 4, 6] : the string is dropped, order is kept *)
+Example ex_map :
+  get (ECall F_map [EConst (JArr [jn 1; jn 2; jn 3; JStr [52]]); ECall F_mul [e_dot; EConst (jn 2)]]) ctx0
+  = Some (JArr [jn 2; jn 4; jn 6]).
+Proof. vm_compute. reflexivity. Qed.
+
+(* (filter [1, 2, 3, 4, "one", null] (string? .)) = ["one"] *)
+Example ex_filter :
+  get (ECall F_filter [EConst (JArr [jn 1; jn 2; JStr s_one; JNull]); ECall F_is_string [e_dot]]) ctx0
+  = Some (JArr [JStr s_one])
+  /\ get (ECall F_filter [EConst (JObj []); EConst (JBool true)]) ctx0 = None.
+Proof. vm_compute. split; reflexivity. Qed.
+
+(* (flat_map ["a|b", 4, "c"] (split . "|")) = ["a", "b", "c"] *)
+Example ex_flat_map :
+  get (ECall F_flat_map [EConst (JArr [JStr [97; 124; 98]; jn 4; JStr [99]]); ECall F_split [e_dot; EConst (JStr [124])]]) ctx0
+  = Some (JArr [JStr [97]; JStr [98]; JStr [99]]).
+Proof. vm_compute. reflexivity. Qed.
+
+(* (fold [1, 10, 5] 100 (+ .index .so_far .value)) = 100 + 1 + 10 + 5 + (0 + 1 + 2) = 119 *)
+Example ex_fold :
+  get (ECall F_fold [EConst (JArr [jn 1; jn 10; jn 5]); EConst (jn 100);
+                     ECall F_add [e_key key_index; e_key key_so_far; e_key key_value]]) ctx0
+  = Some (jn 119)
+  /\ get (ECall F_fold [EConst (JArr [jn 1; jn 10; jn 5]);
+                        ECall F_if [ECall F_is_number [e_key key_so_far];
+                                    ECall F_add [e_key key_so_far; e_key key_value]; e_key key_value]]) ctx0
+  = Some (jn 16).
+Proof. vm_compute. split; reflexivity. Qed.
+
+(* (group_by ["11", "5", "23", "ab", "1", "", "100", {}] (stringify (len .))) : keys in first-seen
+   order "2", "1", "0", "3"; members in list order *)
+Example ex_group_by :
+  get (ECall F_group_by [EConst (JArr [JStr [49; 49]; JStr [53]; JStr [50; 51]; JStr [97; 98]; JStr [49]; JStr []; JStr [49; 48; 48]; JObj []]);
+                         ECall F_stringify [ECall F_size [e_dot]]]) ctx0
+  = Some (JObj [([50], JArr [JStr [49; 49]; JStr [50; 51]; JStr [97; 98]]);
+                ([49], JArr [JStr [53]; JStr [49]]);
+                ([48], JArr [JStr []; JObj []]);
+                ([51], JArr [JStr [49; 48; 48]])])
+  /\ get (ECall F_group_by [EConst (JArr [JStr [49; 49]; JStr [53]]); ECall F_size [e_dot]]) ctx0 = None.
+Proof. vm_compute. split; reflexivity. Qed.
+
+(* (sort_by ["12345", "", 10] (len .)) = [10, "", "12345"] : nothing sorts first *)
+Example ex_sort_by :
+  get (ECall F_sort_by [EConst (JArr [JStr [49; 50; 51; 52; 53]; JStr []; jn 10]); ECall F_size [e_dot]]) ctx0
+  = Some (JArr [jn 10; JStr []; JStr [49; 50; 51; 52; 53]]).
+Proof. vm_compute. reflexivity. Qed.
+
+(* (filter_keys {"k-1": 1, "k-2": 2, "k-3": 3} (!= . "k-2")) keeps the member order *)
+Example ex_filter_keys :
+  get (ECall F_filter_keys [EConst o123; ECall F_neq [e_dot; EConst (JStr s_k2)]]) ctx0
+  = Some (JObj [(s_k1, jn 1); (s_k3, jn 3)]).
+Proof. vm_compute. reflexivity. Qed.
+
+End Examples.
+
+(* ====================================================================================== *)
+(* 11. Axiom audit                                                                         *)
+(* ====================================================================================== *)
+Print Assumptions take_list.
+Print Assumptions take_last_suffix.
+Print Assumptions sub_wrong_len.
+Print Assumptions join_sep.
+Print Assumptions sort_strongly_sorted.
+Print Assumptions sort_unique_subset.
+Print Assumptions zip_two_spec.
+Print Assumptions cross_two_spec.
+Print Assumptions insert_if_absent_spec.
+Print Assumptions split_then_join.
+Print Assumptions lt_gt_dual.
+Print Assumptions numeric_results_integral.
+Print Assumptions sum_result_shape.
+Print Assumptions map_spec.
+Print Assumptions sort_by_spec.
+Print Assumptions fold_spec.
+Print Assumptions group_by_spec.
+Print Assumptions eval_pure.
+Print Assumptions ex_numbers.
+Print Assumptions ex_group_by.
